@@ -5,7 +5,7 @@ import vlib
 
 
 def prog_str(p):
-    return '; '.join(i['op'] + ('[%d]' % i['n'] if i['op'] == 'ToBinary' else '') + '(' + ','.join(a['k'] + str(a['i']) for a in i['a']) + ')' for i in p)
+    return '; '.join(i['op'] + ('[%d]' % i['n'] if i['op'] in ('ToBinary', 'GRangePlain', 'GPartition') else '') + '(' + ','.join(a['k'] + str(a['i']) for a in i['a']) + ')' for i in p)
 
 
 def gen_programs(ctx, quick):
